@@ -222,7 +222,11 @@ pub fn complex(cfg: &CssCfg, fn_depth: u32) -> BoxedStrategy<Complex> {
 }
 
 pub fn rule(cfg: &CssCfg) -> BoxedStrategy<Node> {
-    (proptest::collection::vec(complex(cfg, cfg.sel_fn_depth), 1..3), decls(cfg)).prop_map(|(selectors, decls)| Node::Rule(Rule { selectors, decls })).boxed()
+    let nested = proptest::collection::vec(
+        (prop_oneof![media_cond(cfg, 1).prop_map(|m| ("media".to_string(), Prelude::Media(m))), (pick(PROPS), proptest::collection::vec(numeric(cfg), 1..2)).prop_map(|(p, v)| ("supports".to_string(), Prelude::Supports(vec![SupportsCond::Decl(p, v)])))], decls(cfg)).prop_map(|((n, p), d)| (n, p, d)),
+        0..2,
+    );
+    (proptest::collection::vec(complex(cfg, cfg.sel_fn_depth), 1..3), decls(cfg), proptest::option::weighted(0.15, nested)).prop_map(|(selectors, decls, nested)| Node::Rule(Rule { selectors, decls, nested: nested.unwrap_or_default() })).boxed()
 }
 
 pub fn media_cond(cfg: &CssCfg, depth: u32) -> BoxedStrategy<MediaCond> {
